@@ -117,6 +117,37 @@ def mix_scenario(cls, use_ste):
   return scenario
 
 
+def auto_mix_scenario(alpha, use_ste):
+  """quantized_bits with a data-dependent scale: the same mixing law, f = 0 returns the input itself.  The three runs
+  (f, 0, 1) reduce the same tensor over the same groups, so their scales are the same terms (functional consistency of
+  the group aggregates)."""
+  def scenario(ip):
+    s = Scen()
+    bits, integer = z3.Int("bits"), z3.Int("integer")
+    f = z3.Real("f")
+    s.vars.update({"bits": bits, "integer": integer, "f": f})
+    ip.assume(z3.And(bits >= 2, integer >= 0, f >= 0, f <= 1))
+    x = Q.tensor("x", shape=(3, 4))
+    s.vars["x"] = x.e
+    mk = lambda fv: ip.call(Q.qcls(ip, "quantized_bits"), [SNum(bits), SNum(integer), 1, 1],
+                            {"alpha": alpha, "qnoise_factor": fv, "use_ste": use_ste})
+    qf, q0, q1 = mk(SNum(f, "float")), mk(0.0), mk(1.0)
+    rf, r0, r1 = Q.call(ip, qf, x), Q.call(ip, q0, x), Q.call(ip, q1, x)
+    ok = rf[0] == r0[0] == r1[0] == "return"
+    s.claim("no_raise", ok)
+    if not ok:
+      s.info["raised"] = "%s %s %s" % (rf[1], r0[1], r1[1])
+      return s
+    vf, v0, v1 = Q.value(rf), Q.value(r0), Q.value(r1)
+    s.hints.extend([integer, -integer, bits - 1])
+    s.claim("mix", vf == v0 + f * (v1 - v0))
+    s.claim("f0", v0 == x.e)
+    s.replay = {"class": "quantized_bits", "f": f, "use_ste": use_ste, "bits": bits, "integer": integer, "alpha": alpha,
+                "shape": [3, 4]}
+    return s
+  return scenario
+
+
 def update_scenario(cls, mode):
   """mode: 'float' | 'var_build_then_update' | 'var_update_then_build' | 'var_autobuild'"""
   def scenario(ip):
@@ -324,6 +355,10 @@ def cases(tier):
     for mode in ("float", "var_build_then_update", "var_update_then_build", "var_autobuild"):
       out.append(Case(PROP, "qkeras/base_quantizer.py::BaseQuantizer.update_qnoise_factor", "%s_%s" % (cls, mode),
                       update_scenario(cls, mode), bounds=bounds, replay_kind="c07_update", assumptions=ASSUME, lo=-12, hi=12))
+  for alpha in ("auto", "auto_po2") if tier == "thorough" else ("auto",):
+    for ste in (True, False):
+      out.append(Case(PROP, Q.QF + "quantized_bits.__call__", "mix_%s_%s" % (alpha, "ste" if ste else "noste"),
+                      auto_mix_scenario(alpha, ste), bounds=bounds, replay_kind="c07_mix", assumptions=ASSUME))
   out.append(Case(PROP, CB + "calculate_qnoise_factor", "schedule", calc_scenario(), bounds=bounds,
                   replay_kind="c07_sched", assumptions=ASSUME))
   for ft in ("epoch", "step"):
